@@ -26,3 +26,31 @@ for n in depths:
         print(json.dumps({'mode': 'eval', 'shape': 'deep-doc-descendant', 'depth': n, 'q': '$..*', 'doc': d}))
         print(json.dumps({'mode': 'eval', 'shape': 'long-path', 'depth': n, 'q': '$' + '[0]' * n, 'doc': d}))
         print(json.dumps({'mode': 'eval', 'shape': 'wide-array-slice', 'depth': n, 'q': '$[::-1]', 'doc': list(range(n))}))
+
+# wide documents: work that is linear in the width must not recurse per element (stack) nor take super-linear time
+for n in [1000, 20000, 200000] + ([1000000] if tier == 'thorough' else []):
+    arr = [0] * n; obj = {'k%d' % i: i for i in range(n)}; txt = 'a' * n
+    wide = {
+        'wide-array-equality': ('$[?@==$[0]]', [arr, arr, arr[:-1] + [1]]),
+        'wide-array-order': ('$[?@<=$[0]]', [arr, arr]),
+        'wide-array-inequality': ('$[?@!=$[0]]', [arr, arr[:-1] + [1]]),
+        'wide-nested-array-equality': ('$[?@==$[0]]', [[arr], [arr]]),
+        # (object equality is quadratic in the member count in the crate, which is slow but not a hang: kept small)
+        'wide-object-equality': ('$[?@==$[0]]', [dict(list(obj.items())[:5000]), dict(reversed(list(obj.items())[:5000]))]),
+        'long-string-equality': ('$[?@==$[0]]', [txt, txt, txt[:-1] + 'b']),
+        'long-string-order': ('$[?@<$[0]]', [txt + 'b', txt, txt + 'a']),
+        'long-string-length': ('$[?length(@)>1]', [txt, 'é' * n]),
+        'long-regex-subject': ("$[?match(@,'a*')]", [txt, txt + 'b']),
+        'long-search-subject': ("$[?search(@,'b')]", [txt, txt + 'b']),
+        'wide-wildcard': ('$[*]', arr), 'wide-descendants': ('$..*', [arr, obj]), 'wide-member-wildcard': ('$.*', obj),
+        'wide-count': ('$[?count(@.*)>1]', [arr, obj]), 'wide-length': ('$[?length(@)>1]', [arr, obj]),
+        'wide-in-list': ('$.e[?in(@,$.l)]', {'e': [0, 1, 'x'], 'l': arr}),
+        'wide-filter': ('$[?@==0]', arr), 'wide-slice': ('$[1:-1:2]', arr), 'wide-name-lookup': ("$['k%d']" % (n - 1), obj),
+    }
+    for shape, (q, d) in wide.items():
+        print(json.dumps({'mode': 'run', 'shape': shape, 'depth': n, 'q': q, 'doc': d}))
+for n in [300, 1500]:
+    arr = list(range(n))
+    for shape, (q, d) in {'wide-subset': ('$.e[?subset_of(@,$.l)]', {'e': [arr, arr[::-1]], 'l': arr}), 'wide-any-of': ('$.e[?any_of(@,$.l)]', {'e': [arr[::-1]], 'l': arr}),
+                          'wide-none-of': ('$.e[?none_of(@,$.l)]', {'e': [['x'] * n], 'l': arr})}.items():
+        print(json.dumps({'mode': 'run', 'shape': shape, 'depth': n, 'q': q, 'doc': d}))
